@@ -74,17 +74,17 @@ Definition admitted1 (t : tail) (hdr : N) (before : list tx) (x : tx) : Prop :=
   (p_sup p = true -> t_lease x <> 0 -> forall y, In y before -> t_lease y <> 0 -> t_key y <> t_key x) /\
   checkDup t p hdr (t_fv x) (t_lv x) (t_id x) (t_key x) = DupNone.
 
-Definition Admitted (t : tail) (hdr : N) (txs : list tx) : Prop :=
+Definition AdmittedAll (t : tail) (hdr : N) (txs : list tx) : Prop :=
   forall l1 x l2, txs = l1 ++ x :: l2 -> admitted1 t hdr l1 x.
 
-Lemma admitted_alive : forall t hdr txs y, Admitted t hdr txs -> In y txs -> hdr <= t_lv y.
+Lemma admitted_alive : forall t hdr txs y, AdmittedAll t hdr txs -> In y txs -> hdr <= t_lv y.
 Proof.
   intros t hdr txs y H HI. apply in_split in HI. destruct HI as [l1 [l2 E]].
   destruct (H _ _ _ E) as [_ [H2 _]]. exact H2.
 Qed.
 
 Lemma tx_admit_admitted : forall t hdr acc g1 x,
-  Admitted t hdr (acc ++ g1) ->
+  AdmittedAll t hdr (acc ++ g1) ->
   tx_admit t p hdr [cow_of g1; cow_of acc] x = true ->
   admitted1 t hdr (acc ++ g1) x.
 Proof.
@@ -113,7 +113,7 @@ Proof.
 Qed.
 
 Lemma Admitted_snoc : forall t hdr txs x,
-  Admitted t hdr txs -> admitted1 t hdr txs x -> Admitted t hdr (txs ++ [x]).
+  AdmittedAll t hdr txs -> admitted1 t hdr txs x -> AdmittedAll t hdr (txs ++ [x]).
 Proof.
   intros t hdr txs x HA Hx l1 y l2 E.
   destruct l2 as [|z l2'] using rev_ind.
@@ -123,9 +123,9 @@ Proof.
 Qed.
 
 Lemma eval_group_admitted : forall t hdr acc g g1 child',
-  Admitted t hdr (acc ++ g1) ->
+  AdmittedAll t hdr (acc ++ g1) ->
   eval_group t p hdr (cow_of acc) (cow_of g1) g = Some child' ->
-  child' = cow_of (g1 ++ g) /\ Admitted t hdr (acc ++ g1 ++ g).
+  child' = cow_of (g1 ++ g) /\ AdmittedAll t hdr (acc ++ g1 ++ g).
 Proof.
   intros t hdr acc. induction g as [|x g IH]; intros g1 child' HA H.
   - cbn [eval_group] in H. inversion H. rewrite !app_nil_r. auto.
@@ -139,9 +139,9 @@ Proof.
 Qed.
 
 Lemma eval_groups_admitted : forall t hdr gs acc root' acc',
-  Admitted t hdr acc ->
+  AdmittedAll t hdr acc ->
   eval_groups t p hdr (cow_of acc) acc gs = (root', acc') ->
-  Admitted t hdr acc'.
+  AdmittedAll t hdr acc'.
 Proof.
   intros t hdr. induction gs as [|g gs IH]; intros acc root' acc' HA H.
   - cbn [eval_groups] in H. inversion H. subst. exact HA.
@@ -152,7 +152,7 @@ Proof.
     + apply (IH _ _ _ HA H).
 Qed.
 
-Lemma eval_block_admitted : forall t hdr gs, Admitted t hdr (eval_block t p hdr gs).
+Lemma eval_block_admitted : forall t hdr gs, AdmittedAll t hdr (eval_block t p hdr gs).
 Proof.
   intros. unfold eval_block.
   destruct (eval_groups t p hdr cow0 [] gs) as [root' acc'] eqn:E. cbn [snd].
@@ -182,7 +182,7 @@ Proof.
     + apply (IH _ _ _ H).
 Qed.
 
-(* ---------- Admitted => the block is one the txTail relies on ---------- *)
+(* ---------- AdmittedAll => the block is one the txTail relies on ---------- *)
 Lemma NoDup_map_prefix : forall A C (f : A -> C) (l : list A),
   (forall l1 x l2, l = l1 ++ x :: l2 -> ~ In (f x) (map f l1)) -> NoDup (map f l).
 Proof.
@@ -193,7 +193,7 @@ Proof.
   - apply NoDup_rev. apply IH. intros l1 x l2 E. apply (H l1 x (l2 ++ [a])). rewrite E, <- app_assoc. reflexivity.
 Qed.
 
-Lemma admitted_blk_ok : forall t hdr txs, Admitted t hdr txs -> blk_ok p hdr txs = true.
+Lemma admitted_blk_ok : forall t hdr txs, AdmittedAll t hdr txs -> blk_ok p hdr txs = true.
 Proof.
   intros t hdr txs HA. unfold blk_ok. apply andb_true_iff. split.
   - apply forallb_forall. intros x HI. apply in_split in HI. destruct HI as [l1 [l2 E]].
@@ -219,7 +219,7 @@ Proof.
     apply NoDup_map_prefix. exact HA'.
 Qed.
 
-Lemma admitted_ids_nodup : forall t hdr txs, Admitted t hdr txs -> NoDup (map t_id txs).
+Lemma admitted_ids_nodup : forall t hdr txs, AdmittedAll t hdr txs -> NoDup (map t_id txs).
 Proof.
   intros t hdr txs HA. apply NoDup_map_prefix. intros l1 x l2 E.
   destruct (HA _ _ _ E) as [_ [_ [_ [H _]]]]. exact H.
@@ -313,7 +313,7 @@ Proof.
 Qed.
 
 Lemma hok_add : forall s txs,
-  Inv p s -> HOk (s_blocks s) -> Admitted (s_tail s) (s_latest s + 1) txs ->
+  Inv p s -> HOk (s_blocks s) -> AdmittedAll (s_tail s) (s_latest s + 1) txs ->
   HOk ((s_latest s + 1, txs) :: s_blocks s).
 Proof.
   intros s txs HI [H1 H2 H3] HA.
